@@ -155,6 +155,7 @@ namespace sim
         {
             return events_;
         }
+        std::uint64_t stats_too_large_ = 0;
         std::uint64_t total_requests() const
         {
             return total_requests_;
